@@ -17,5 +17,5 @@ fi
 cd /verif
 VERIF_REPO="$D" VERIF_NO_EVIDENCE=1 ./check "$ID" "$TIER"
 rc=$?
-rm -rf "$D" /verif/.build/alt-*
+rm -rf "$D" "/verif/.build/alt-$(printf %s "$D" | sha256sum | cut -c1-10)"
 exit $rc
